@@ -46,10 +46,12 @@ TRUSTED = [
     'optional sign + ASCII digits) with their laws proved (IntTextProofs.v) and compared with CPython on every int and '
     'every int text of every case (int_layer_ok); int(text) for texts with whitespace, underscores or non-ASCII digits '
     'is outside the model',
-    'oracle assumptions about CPython for FLOATS (hypotheses of the theorems, validated on every generated number by '
-    'the correspondence, not proved): float(str(x)) == x bit for bit (shortest-repr round trip); '
-    'str() of a float/bool is non-empty, contains no separator and no newline and does not start with a '
-    'double quote',
+    'float layer: str(x) and float(text) for finite floats are MODELLED too (Container/FloatText.v: shortest round-trip '
+    'digits found by exact-arithmetic search, repr formatting; correctly rounded decimal-to-binary64 conversion) with '
+    'float(str x) = x PROVED for every binary64 value (17 digits always suffice) and compared with CPython on every float '
+    'and float text of every case (float_layer_ok); outside the model: inf / nan and texts with whitespace, underscores or '
+    'non-ASCII digits; not proved: minimality of the digit string and the tie-break among equally short strings '
+    '(compared with CPython only)',
     'multi-character separators: correspondence only (the theorems are for a one-character separator)',
     'scale family (lines of several read chunks, texts of several MiB, hundreds of columns): judged by the model-free '
     'round-trip oracle only; the Coq model is not evaluated on them (term CSkip, checker answers true) because it is '
@@ -980,7 +982,22 @@ def c_tabs(case):
     ipar = c_list(['(%s, %s)' % (zs(t), c_Z(int(t))) for t in sorted(set(ints.values()))])
     fstr = c_list(['(%s, %s)' % (zs(h), zs(t)) for h, t in sorted(floats.items())])
     fpar = c_list(['(%s, %s)' % (zs(t), zs(float(t).hex())) for t in sorted(set(floats.values()))])
-    return '(mkTabs %s %s %s %s)' % (istr, ipar, fstr, fpar)
+    def tri(h):
+        import math
+        x = float.fromhex(h)
+        sg = 'true' if math.copysign(1.0, x) < 0 else 'false'
+        a = abs(x)
+        if a == 0.0:
+            m, e = 0, 0
+        elif a < 2.0 ** -1022:
+            m, e = int(a / 2.0 ** -1074), -1074
+        else:
+            mant, ex = math.frexp(a)
+            m, e = int(mant * 2 ** 53), ex - 53
+        return '(%s, %s, %s)' % (sg, c_Z(m), c_Z(e))
+    ftri = c_list(['(%s, %s)' % (tri(h), zs(t)) for h, t in sorted(floats.items())
+                   if float.fromhex(h) == float.fromhex(h) and abs(float.fromhex(h)) != float('inf')])
+    return '(mkTabs %s %s %s %s %s)' % (istr, ipar, fstr, fpar, ftri)
 
 
 def c_head(case):
@@ -1072,10 +1089,9 @@ CLAIM = {
             'Python str.split/join/replace and text-mode file reads are modelled, not verified. Number layer: '
             'str(n) / int(text) for ints are concrete Coq functions with their laws proved (the C18_*_int_concrete theorems '
             'keep only the float hypotheses) and compared with CPython on every int of every case; str(x) / float(text) '
-            'remain abstract functions in the theorems with the hypotheses '
-            'float(str x) = x (shortest-repr round trip), str of a float/bool is non-empty, has no separator, no '
-            'newline and no leading double quote - oracle assumptions about CPython, validated by the '
-            'correspondence on every generated number (laws_ok), not proved. \\r excluded because load_from_file '
+            'for finite floats are concrete Coq functions as well (FloatText.v), float(str x) = x proved for every '
+            'binary64 value, so the C18_*_all_concrete theorems carry NO hypothesis about numbers; both layers are compared '
+            'with CPython on every number of every case (laws_ok). \\r excluded because load_from_file '
             'reads in text mode (universal newlines).',
     'technique': 'Coq proof (token alignment for the sequential replaces; split/join algebra; rev_ind parity lemmas; '
                  'atomic consumption of each field by merge; reuse of the C15 unframe theorem for the file path) + '
